@@ -77,7 +77,7 @@ PROP = {
         {"name": "c08.days", "args_thorough": ["all"], "extra_years": True},   # year and month pillar of every civil date (day view)
         {"name": "c09.hours"},                            # all 60 day pillars x 24 hours (instant view)
     ],
-    "ops": c08_ops,
+    "ops": with_extra(c08_ops, eq_kinds=(13,), dep=True),
     "extra_checks": [c08_jie],
     "op_fields": 2,
     "exhaustive": False,
